@@ -25,7 +25,7 @@ WORDS = ["alpha", "bravo", "charlie", "delta", "echo", "foxtrot", "golf", "hotel
 
 # shapes with a confirmed finding (see known_findings.json): values produced by them are not fed into later expressions,
 # so that the search continues behind them ("excluded by construction")
-TAINT = {"recursion-literal-guard", "star-unpacking-tail"}
+TAINT = {"recursion-literal-guard", "star-unpacking-tail", "unary-minus-on-computed-number"}
 
 
 class Var:
@@ -239,6 +239,34 @@ def p_literals(b):
         b.bind("%s[0][1]" % v.name, d2, x2, ["index"])
 
 
+def p_arith(b):
+    """Operator expressions over numbers (precedence, non-associative operators, comparison chains)."""
+    b.prog.features.add("arithmetic")
+    x, y, z = (b.draw(st.sampled_from(["7", "2", "3", "20", "5"])) for _ in range(3))
+    op = b.draw(st.sampled_from(["-", "//", "%", "**", "<<", "+", "*"]))
+    first = b.bind("%s %s %s" % (x, op, y), ("int",), True, ["arithmetic"])
+    op2 = b.draw(st.sampled_from([op, op, "-", "*", "+"]))
+    if op2 in ("//", "%", "**", "<<"):
+        op2 = "-"          # keep the second operator total (no division by a computed zero, no huge shifts)
+    form = b.draw(st.sampled_from(["right", "left", "both", "unary", "compare", "power"]))
+    if form == "right":
+        b.bind("%s %s %s" % (z, op2, first.name), ("int",), True, ["arithmetic"])
+    elif form == "left":
+        b.bind("%s %s %s" % (first.name, op2, z), ("int",), True, ["arithmetic"])
+    elif form == "both":
+        b.bind("%s %s %s %s %s" % (first.name, op2, z, op, first.name), ("int",), True, ["arithmetic"])
+    elif form == "unary":
+        b.bind("-%s" % first.name, ("int",), True, ["arithmetic"] + ([] if op in ("+", "-") else ["unary-minus-on-computed-number"]))
+    elif form == "power":
+        p = b.bind("%s ** %s" % (b.draw(st.sampled_from(["2", "3"])), b.draw(st.sampled_from(["2", "3"]))), ("int",), True, ["arithmetic"])
+        b.bind("%s ** 2" % p.name, ("int",), True, ["arithmetic"])
+        b.bind("2 ** %s" % p.name, ("int",), True, ["arithmetic"])
+    else:
+        c = b.bind("%s < %s" % (x, y), ("bool",), True, ["comparison"])
+        b.bind("%s == %s" % (c.name, b.draw(st.sampled_from(["True", "1", "0"]))), ("bool",), True, ["comparison"])
+        b.bind("not %s" % c.name, ("bool",), True, ["comparison"])
+
+
 def p_unpack(b):
     b.prog.features.add("unpacking")
     e1, d1, x1 = b.value()
@@ -393,7 +421,8 @@ def p_lambda(b):
 
 
 def _some_class(b, pred=lambda c: True):
-    cs = [c for c in b.prog.classes.values() if pred(c) and (c.module == b.mod.name or c.name in b.imports)]
+    cs = [c for c in b.prog.classes.values() if pred(c) and (c.module == b.mod.name or c.name in b.imports)
+          and not any(pd is None for _, pd in (c.init or []))]
     if not cs:
         return None
     return b.draw(st.sampled_from(sorted(cs, key=lambda c: c.name)))
@@ -673,7 +702,26 @@ def p_decorator(b):
     b.prog.features.add("decorators")
     dname, fname = b.fresh("deco"), b.fresh("dfun")
     e1, d1, x1 = b.value()
-    form = b.draw(st.sampled_from(["passthrough", "wraps", "plainwrapper"]))
+    form = b.draw(st.sampled_from(["passthrough", "wraps", "plainwrapper", "stacked"]))
+    if form == "stacked":
+        # two decorators that each wrap the result in their own class: the order of application is observable
+        b.prog.features.add("stacked-decorators")
+        k1, k2 = "K" + b.fresh("Box").replace("_", ""), "K" + b.fresh("Tag").replace("_", "")
+        d2 = b.fresh("deco")
+        for kn in (k1, k2):
+            ci = ClassInfo(kn, b.mod.name)
+            ci.init = [("inner_value", None)]
+            ci.attrs["inner_value"] = None
+            ci.methods["__init__"] = ("method", [("inner_value", None)], ("none",))
+            b.prog.classes[kn] = ci
+            b.emit("class %s:" % kn, "    def __init__(self, inner_value):", "        self.inner_value = inner_value")
+        for dn, kn in ((dname, k1), (d2, k2)):
+            b.emit("def %s(func):" % dn, "    def wrapper(*args):", "        return %s(func(*args))" % kn, "    return wrapper")
+        b.emit("@%s" % d2, "@%s" % dname, "def %s(first):" % fname, "    return first")
+        v = b.bind("%s(%s)" % (fname, e1), ("inst", k2), True, ["decorated-call", "stacked"])
+        v2 = b.bind("%s.inner_value" % v.name, ("inst", k1), True, ["decorated-call", "stacked", "attribute"])
+        b.bind("%s.inner_value" % v2.name, d1, x1, ["decorated-call", "stacked", "attribute"])
+        return
     if form == "passthrough":
         b.emit("def %s(func):" % dname, "    return func")
     elif form == "wraps":
@@ -789,7 +837,7 @@ def p_flow(b):
         b.bind("%s_in" % t, ("inst", ci.name), True, ["with"])
 
 
-PRODUCTIONS = [p_literals, p_unpack, p_function, p_function, p_function, p_lambda, p_class, p_class, p_use_class,
+PRODUCTIONS = [p_literals, p_arith, p_unpack, p_function, p_function, p_function, p_lambda, p_class, p_class, p_use_class,
                p_decorator, p_generator, p_comprehension, p_flow, p_flow, p_multi_inherit, p_override]
 
 
